@@ -461,7 +461,7 @@ func runC12(c *CaseCtx) {
 					default:
 						c.Violate("in-doubt-partial:in-process:"+firstDiffCall(got, beforeObs), class, fmt.Sprintf("after %s the transaction is partially visible in the process:\n%s", where, diffObs(got, beforeObs)))
 					}
-					if !c.Violated() && !mergeVariant && cfg.Mode != 2 && r.Intn(3) == 0 {
+					if !c.Violated() && !mergeVariant && cfg.Mode != 2 && r.Intn(2) == 0 {
 						// the handle is kept: more committed transactions on it before any reopen. Either (a) one Put
 						// whose record is exactly as long as the first record of the in-doubt transaction (other key
 						// of the same length, value of the same length), or (b) single Puts until the segment has been
@@ -473,7 +473,7 @@ func runC12(c *CaseCtx) {
 						}
 						var extra []Op
 						first := t.Ops[0]
-						if (first.K == "Put" || first.K == "PutTS") && r.Intn(2) == 0 {
+						if (first.K == "Put" || first.K == "PutTS") && r.Intn(4) != 0 {
 							for _, k := range u.KVKeys {
 								if len(k) == len(first.Key) && !touched[first.B+"\x00"+string(k)] {
 									v := make([]byte, len(first.Val))
